@@ -234,6 +234,38 @@ func (x *g) genMethod(sv *spec.Service, j int, used map[string]bool) {
 		case m.Payload != nil && m.Payload.Type.Kind == spec.Object && (x.chance(1, 3) || len(x.s.EffectiveSecurity(sv, m)) == 0 && x.chance(1, 2)):
 			m.Security = x.genRequirements(3)
 			x.s.AddFeature("method-security")
+			// one requirement of two schemes: a scheme the design already uses elsewhere FIRST, then one used nowhere yet
+			if len(x.s.Schemes) >= 2 && x.chance(1, 2) {
+				used := map[string]bool{}
+				note := func(rs []*spec.Requirement) {
+					for _, r := range rs {
+						for _, n := range r.Schemes {
+							used[n] = true
+						}
+					}
+				}
+				note(x.s.API.Security)
+				for _, osv := range x.s.Services {
+					note(osv.Security)
+					for _, om := range osv.Methods {
+						note(om.Security)
+					}
+				}
+				note(sv.Security)
+				var seen, fresh *spec.Scheme
+				for _, sc := range x.s.Schemes {
+					if used[sc.Name] && seen == nil {
+						seen = sc
+					}
+					if !used[sc.Name] && fresh == nil {
+						fresh = sc
+					}
+				}
+				if seen != nil && fresh != nil && !(seen.Kind == "basic" && fresh.Kind == "basic") {
+					m.Security = []*spec.Requirement{{Schemes: []string{seen.Name, fresh.Name}}}
+					x.s.AddFeature("requirement-seen-scheme-then-new-scheme")
+				}
+			}
 		case x.chance(1, 6) && len(x.s.EffectiveSecurity(sv, m)) > 0:
 			m.NoSec = true
 			x.s.AddFeature("method-nosecurity")
